@@ -231,7 +231,7 @@ def c19(tier, seed):
     build_info = {"real_or_stub": REAL_STUB["idn2"], "library_externals": ext, "tree": build.tree_fingerprint()}
     det = determinism_selftest(exe, "C19", ["single", "multi"], seed, 160 if tier == "quick" else 2000, W, 3)
     nbase = 2 if tier == "quick" else 40
-    per_base = 50 * 30 * 3
+    per_base = 50 * 30 * 2 * 3       # positions x codes x (first | second IDN-library call) x buffer modes
     secs = 90 if tier == "quick" else 300
     q = tier == "quick"
     batches = [Batch("nofault", exe, "C19", "nofault", seed, 4000 if q else 10**8, 60, W, samples=True).run(),
@@ -246,7 +246,7 @@ def c19(tier, seed):
             "IDN conversion faults attached to operations: 'single' = every (base sequence, position, code in 28 libidn2 codes + unknown negative + positive, "
             "buffer mode A/B/C) enumerated by index; 'multi' = seeded multi-fault sequences, fault rate 2-60%% per plan; 'nofault' = same workloads, no fault; "
             "distinct = distinct hash of (ops incl. attached faults); non-trivial = >=1 oracle comparison and, in fault batches, >=1 fault that actually fired")
-    extra = {"single_fault_enumeration": {"base_sequences": nbase, "positions": 50, "codes": 30, "buffer_modes": 3,
+    extra = {"single_fault_enumeration": {"base_sequences": nbase, "positions": 50, "codes": 30, "which_idn_call": 2, "buffer_modes": 3,
                                           "plans_enumerated": single.done, "faults_fired_in_enumeration": (single.stats or {}).get("idn_fault_fired", 0)},
              "exhaustive": False}
     assumptions = ["sampling for base sequences; single-fault positions x codes x buffer modes are enumerated completely per base sequence",
